@@ -45,8 +45,8 @@ def items(ctx):
     return out
 
 
-RULE = ("model: the assign / stop / repair-empty / update / final-assign state machine over ALL rank tables (k <= 2-3, "
-        "n <= 3-4, max_it <= 2) with outlier masks and empty-cluster repair as nondeterministic choices: every terminal "
+RULE = ("model: the assign / stop / repair-empty / update / final-assign state machine over ALL rank tables (quick k=2 n=3; thorough also k=2 n=4 "
+        "and k=3 n=3; max_it <= 2) with outlier masks and empty-cluster repair as nondeterministic choices: every terminal "
         "state has keys 0..k-1, a partition, nearest-mean membership and performed_it <= max_it+1. implementation: "
         "seeded data sets (n 3-8, k < n, ndim 1-2, duplicates, list and matrix containers) x seeds x initialisation "
         "{k-means++, random, sample size 1} x drop_stddev x window/penalty x use_c, serial and a few with the real "
@@ -94,6 +94,7 @@ def run(ctx):
     ctx.log("Act M: %s" % cfg)
     ctx.add_mc(tlc.model_check("KMeans", cfg, workers=12))
     if not ctx.quick:
+        ctx.add_mc(tlc.model_check("KMeans", "KMeans_t2.cfg", workers=12))
         ctx.add_mc(tlc.model_check("KMeans", "KMeans_q.cfg", workers=12))
     return judge(ctx, src, items(ctx))
 
